@@ -56,6 +56,10 @@ fn lookups_lg() -> (Vec<BAir>, Vec<usize>) {
 fn lookups_local_only() -> (Vec<BAir>, Vec<usize>) {
     (vec![BAir::MulLk { reps: 2, local: true, global: false }, BAir::Add], vec![8, 8])
 }
+/// three instances with the SAME periodic tables at different heights (8, 16, 8) next to a plain one
+fn periodic_heights() -> (Vec<BAir>, Vec<usize>) {
+    (vec![BAir::Periodic, BAir::Periodic, BAir::Add, BAir::Periodic], vec![8, 16, 8, 8])
+}
 fn lookups_lg16() -> (Vec<BAir>, Vec<usize>) {
     (
         vec![
@@ -117,6 +121,7 @@ const QUICK: &[&str] = &[
     "babybear_d4_p2w16/batch/fri/one_row_instances/fri_testing",
     "babybear_d4_p2w16/uni/fri/periodic8/fri_testing",
     "babybear_d4_p2w16/batch/fri/lookups_local_only/fri_testing",
+    "babybear_d4_p2w16/batch/fri/periodic_heights/fri_testing",
     "babybear_d4_p2w16/uni/fri/add_nonext8/fri_testing",
     "babybear_d4_p2w16/uni/hiding_fri/fib8/fri_testing",
     "babybear_d4_p2w16/batch/hiding_fri/lookups_local_global/fri_testing",
@@ -185,6 +190,8 @@ pub fn catalogue() -> Vec<FixtureSpec> {
     uni!(v, bb, false, UAir::Periodic, "periodic16", 16, b1.clone());
     // an AIR that declares no next-row access under the uni-STARK verifier (no trace_next opening)
     uni!(v, bb, false, UAir::AddNoNext, "add_nonext8", 8, t.clone());
+    batch!(v, bb, false, periodic_heights(), "periodic_heights", t.clone());
+    batch!(v, bb_zk, false, periodic_heights(), "periodic_heights", t.clone());
     batch!(v, bb, false, lookups_local_only(), "lookups_local_only", t.clone());
     batch!(v, bb_zk, false, lookups_local_only(), "lookups_local_only", t.clone());
     batch!(v, bb, false, one_row_instances(), "one_row_instances", t.clone());
